@@ -3,6 +3,8 @@ From Coq Require Import QArith Qcanon ZArith List Bool String Permutation.
 Require Import CGT.Model.Num CGT.Model.Date CGT.Model.Ledger CGT.Model.Match CGT.Model.Agg CGT.Model.Report CGT.Model.Config
                CGT.Proofs.AggFacts CGT.Proofs.LedgerFacts.
 Require Import CGT.Proofs.FillFacts.
+Require Import CGT.Model.Dsl CGT.Proofs.DslFiles.
+From Coq Require Import Ascii.
 Import ListNotations.
 Open Scope Qc_scope.
 
@@ -36,6 +38,14 @@ Theorem C06_sell_fills : forall P cfg yf a b d s q p f q1 p1 f1 q2 p2 f2,
 Proof. intros. apply report_of_fill. apply sell_fills; assumption. Qed.
 Print Assumptions C06_buy_fills.
 Print Assumptions C06_sell_fills.
+
+(* File split: the CLI joins its input files with a newline.  If each of two files is read successfully, the joined text is read as the
+   first list followed by the second - whatever the first file ends with (no final newline, LF, CRLF, or a lone CR that merges with the
+   joining LF); by repetition, any number of files.  With C06_perm, how the lines are distributed over files does not matter. *)
+Theorem C06_file_join : forall valid_cur s1 s2 t1 t2, parse valid_cur s1 = inr t1 -> parse valid_cur s2 = inr t2 ->
+  parse valid_cur (s1 ++ ch 10 :: s2) = inr (t1 ++ t2).
+Proof. exact parse_join. Qed.
+Print Assumptions C06_file_join.
 
 (* non-vacuity: a two-security ledger with a same-day purchase and sale, reversed *)
 Definition c06_ledger : list gtxn :=
